@@ -132,6 +132,8 @@ def evalLayout (cfg : Cfg) (es : InEdges) (obs : Json) : E Verdict := do
   -- C07 (same process)
   if let some r := fieldOpt obs "rep_same" then
     v := v.add "C07rep" (← r.getBool?) "repeated-call-differs"
+  if let some r := fieldOpt obs "mon_same" then
+    v := v.add "C18same" (← r.getBool?) "layout-differs-with-monitor"
   if let some r := fieldOpt obs "inputmod" then
     v := v.add "C07input" (!(← r.getBool?)) "caller-input-modified"
   pure v
